@@ -989,6 +989,13 @@ class TLSConnection(TLSRecordLayer):
             else: break
 
         hello_retry = None
+        if result.extensions:
+            ext_types = [i.extType for i in result.extensions]
+            if len(ext_types) != len(set(ext_types)):
+                for result in self._sendError(
+                        AlertDescription.illegal_parameter,
+                        "Duplicate extension in Server Hello"):
+                    yield result
         ext = result.getExtension(ExtensionType.supported_versions)
 
         if result.random == TLS_1_3_HRR and ext and ext.version > (3, 3):
@@ -1107,6 +1114,14 @@ class TLSConnection(TLSRecordLayer):
                         AlertDescription.unexpected_message,
                         "Received second HelloRetryRequest"):
                     yield result
+
+            if result.extensions:
+                ext_types = [i.extType for i in result.extensions]
+                if len(ext_types) != len(set(ext_types)):
+                    for result in self._sendError(
+                            AlertDescription.illegal_parameter,
+                            "Duplicate extension in Server Hello"):
+                        yield result
 
         serverHello = result
 
@@ -3529,6 +3544,13 @@ class TLSConnection(TLSRecordLayer):
         clientHello = result
 
         # check if the ClientHello and its extensions are well-formed
+        if clientHello.extensions:
+            ext_types = [i.extType for i in clientHello.extensions]
+            if len(ext_types) != len(set(ext_types)):
+                for result in self._sendError(
+                        AlertDescription.illegal_parameter,
+                        "Duplicate extension in Client Hello"):
+                    yield result
 
         #If client's version is too low, reject it
         real_version = clientHello.client_version
